@@ -24,6 +24,14 @@ def _prov():
   return p
 
 
+def _utf8_prov():
+  E = _E()
+  p = E.__dict__.get('_utf8_prov')
+  if p is None or E.__dict__.get('_utf8_prov_path') is not E.trace:
+    p = {}; E._utf8_prov = p; E._utf8_prov_path = E.trace
+  return p
+
+
 def _is_sym(b):
   return isinstance(b, (SymInt, z3.ExprRef))
 
@@ -86,8 +94,11 @@ class SymBytes(object):
   def __repr__(self): return 'SymBytes(%s)' % (list(self.b),)
   def decode(self, enc='utf-8', errors='strict'):
     if self.is_concrete(): return bytes(self.b).decode(enc, errors)
+    key = tuple(x if isinstance(x, int) else ('t', x.get_id()) for x in self.b)
+    hit = _utf8_prov().get(key)
+    if hit is not None: return hit[0]
     from .values import boundary
-    boundary('decode() of symbolic bytes')
+    boundary('decode() of symbolic bytes that no modelled encode() produced')
     return '?' * len(self.b)
   def tobytes(self): return self
   def startswith(self, p):
@@ -152,7 +163,10 @@ class SymStr(str):
     if encoding.lower().replace('_', '-') not in ('utf-8', 'utf8'):
       from .values import boundary
       boundary('encode(%r) of symbolic text' % encoding)
-    return utf8_encode_cps(self.cps)
+    out = utf8_encode_cps(self.cps)
+    key = tuple(x if isinstance(x, int) else ('t', x.get_id()) for x in out.b)
+    _utf8_prov()[key] = (self, out)
+    return out
   def _cmp_cps(self, o):
     if isinstance(o, SymStr): ocps = o.cps
     elif isinstance(o, str): ocps = [ord(c) for c in o]
@@ -351,6 +365,14 @@ class SymStruct(object):
 
 
 error = _struct.error
+
+
+def sym_bytes_ctor(x=b'', encoding=None, errors=None):
+  """bytes(text, 'utf-8') on symbolic text (module global `bytes` of thrift.protocol.TProtocol)"""
+  if isinstance(x, SymStr): return x.encode(encoding or 'utf-8')
+  if isinstance(x, SymBytes): return x
+  if encoding is not None: return bytes(x, encoding)
+  return bytes(x)
 
 
 def install(module, names=('pack', 'unpack', 'calcsize', 'Struct')):
